@@ -320,9 +320,22 @@ class C05:
         big = bytes((i * 131 + 7) % 251 for i in range(3 * 1024 * 1024))
         c = self.srv.client(timeout=20.0)
         c.cmd("SET", "big", big)
-        for n in (2, 3):
+        for n, nap in ((2, 0), (3, 0), (12, 0), (40, 0), (12, 1.5)):
+            # n replies of 3 MiB each pile up behind the socket buffers; with `nap` the client does not read at all for a while
             self.rep.evaluations += 1
             c.send_raw(enc([b"GET", b"big"]) * n + enc([b"PING"]))
+            if nap:
+                time.sleep(nap)
+                try:
+                    o = self.srv.client(timeout=2.0)
+                    t0 = time.time()
+                    served = o.cmd("PING", timeout=2.0) == ("s", b"PONG") and time.time() - t0 < 0.5
+                    o.close()
+                except (Closed, TimeoutError, ProtocolError, OSError):
+                    served = False
+                if not served:
+                    self.oracle_failures.append({"commands": [["GET", "big"]] * n + [["PING"]], "segments": [], "tag": "large-replies",
+                                                 "why": "while one client's %d MiB of replies were pending, another connection's PING was not answered within 0.5 s" % (3 * n)})
             ok, why = True, ""
             try:
                 for i in range(n):
